@@ -56,13 +56,13 @@ def gen_program(rng, n=None, wild=False):
         r = rng.random()
         if r < 0.10:
             # relative branch with a small (sometimes escaping) offset
-            name = rng.choice(BRANCH_R) + "R"
-            if name == "BRR" and rng.random() < 0.3:
-                off = 0
+            name = rng.choice(BRANCH_R + ["BR", "BR"]) + "R"
+            if name == "BRR" and rng.random() < 0.4:
+                off = 0          # the HALT idiom
             else:
-                off = rng.choice([1, 2, 3, -1, -2, 5, n - i, -(i + 1), -(i + 3), 255, 254, 130]) if wild or rng.random() < 0.3 \
+                off = rng.choice([1, 2, 3, -1, -2, 5, n - i, -(i + 1), -(i + 3), 255, 254, 130]) if wild and rng.random() < 0.5 \
                     else rng.choice([1, 2, 3])
-            if not -128 <= off < 256:
+            if not -128 <= off < 256 or (off == 0 and name != "BRR"):
                 off = 2
             code.append((name, [off]))
         elif r < 0.16:
